@@ -869,7 +869,25 @@ def run(ck):
         ck.ob('R5.7', 'accumulated-type-is-compared', ok, L.loc(dt[0]) if dt else '', why)
         flt = next((c for c in H.calls_in(rr['body']) if c.get('m') == 'filter_map'), None)
         ok = flt is not None and 'Terminator::Return' in pp(flt['args'][0]) and 'basic_blocks.iter()' in pp(flt['recv'])
-        ck.ob('R5.7', 'every-return-collected', ok, L.loc(flt) if flt else '', 'operands = all Terminator::Return operands of all blocks')
+        why = 'operands = all Terminator::Return operands of all blocks'
+        if ok:
+            # of ALL blocks: the emitter prints dead blocks too and the C++ compiler type-checks them, so no block may be left out
+            # (no zip/filter/skip in front of the filter_map) and no Return may be dropped (no guard, no second condition)
+            chain = []
+            x = H.strip_refs(flt['recv'])
+            while x.get('k') == 'MCall':
+                chain.append(x.get('m'))
+                x = H.strip_refs(x['recv'])
+            cl = flt['args'][0]
+            guards = [a for a in walk(cl) if a.get('k') == 'Arm' and 'guard' in a]
+            conds = [n for n in walk(cl) if n.get('k') == 'If' and n['c'].get('k') != 'LetCond']
+            lets = [n for n in walk(cl) if n.get('k') == 'LetCond']
+            pat_ok = all('Terminator::Return' in pp(n['pat']) and not any(q.get('k') in ('PLit', 'PRange') for q in walk(n['pat'])) for n in lets)
+            ok = chain == ['iter'] and not guards and not conds and pat_ok and x.get('k') == 'Field' and x.get('f') == 'basic_blocks'
+            if not ok:
+                why = 'the return operands are collected from %s with %s: a return that is left out is printed into the C++ function without having been checked against the result type' % (
+                    'basic_blocks.' + '.'.join(reversed(chain)) + '()', 'a guarded arm' if guards else 'an extra condition' if conds else 'a narrowing pattern')
+        ck.ob('R5.7', 'every-return-collected', ok, L.loc(flt) if flt else '', why)
 
     # ---- shared obligations: places outside the type checker that decide whether its verdict is reached at all -------------------------------
     import core as _core
